@@ -374,7 +374,13 @@ void Sim::stop_and_join(uint64_t unwind_budget) {
     unwinding = false;
 }
 
+static void yield_point_inner(const char *what);
 void yield_point(const char *what) {
+    int e = errno;   // a scheduling decision is not a library call: the caller's errno survives it
+    yield_point_inner(what);
+    errno = e;
+}
+static void yield_point_inner(const char *what) {
     Task *me = t_cur;
     if (!me || !G) return;
     G->steps++;
